@@ -46,7 +46,8 @@ From TarpcV Require Import TimerWheel Server ServerMon ServerFuel ServerProps Se
    execute() whose flag is set never polls its handler again (Properties/C04.v,
    C04_aborted_never_progresses).  (The full monitor - a failing transport call ends the poll,
    which reports that activity; no transport call after it; nothing polled after the channel was
-   dropped; no panic - is ServerSpec.stmt_s09; it runs on the real traces on every run.) *)
+   dropped; no panic - is ServerSpec.stmt_s09; it runs on the real traces on every run and is
+   proved below: C09_server_monitor, C09_server_monitor_exec.) *)
 Theorem C09_server_drop_aborts : forall (T : Type) (s : @sstate T) e,
   s_dropped s = false -> In e (s_inflight s) -> In (e_h e) (s_aborted (drop_channel s)).
 Proof. exact ServerProps.C09_server_drop_aborts. Qed.
